@@ -43,6 +43,20 @@ ALLOWED_AXIOMS = {
     "JMeq.JMeq_eq",
 }
 
+# ... and whole standard-library modules whose axioms / primitives may appear (native integers and floats used by
+# Coq-Interval, the classical real numbers, classical logic)
+ALLOWED_AXIOM_PREFIXES = (
+    "Uint63.", "PrimInt63.", "Sint63.", "PrimFloat.", "FloatAxioms.", "FloatOps.", "PrimArray.",
+    "ClassicalDedekindReals.", "FunctionalExtensionality.", "Classical_Prop.", "ClassicalEpsilon.", "Epsilon.",
+    "PropExtensionality.", "ProofIrrelevance.", "Eqdep.", "JMeq.", "ClassicalUniqueChoice.", "Description.",
+    "IndefiniteDescription.", "ClassicalFacts.", "ChoiceFacts.",
+)
+
+
+def axiom_allowed(name):
+    return name in ALLOWED_AXIOMS or name.startswith(ALLOWED_AXIOM_PREFIXES)
+
+
 FORBIDDEN_RE = re.compile(
     r"\b(Admitted|admit|Axiom|Axioms|Parameter|Parameters|Conjecture|"
     r"Admit Obligations|Unset Guard Checking|Unset Positivity Checking|"
@@ -430,7 +444,7 @@ class Ctx:
             return False
         allok = True
         for t, (closed, axs) in zip(thms, ass):
-            bad = [a for a in axs if a not in ALLOWED_AXIOMS]
+            bad = [a for a in axs if not axiom_allowed(a)]
             self.axioms_seen.update(axs)
             self.oblige(t, "theorem", not bad,
                         ("closed under the global context" if closed else "axioms: " + ", ".join(axs))
